@@ -2,6 +2,7 @@ import Plotink.Gen.distance
 import Plotink.Gen.dotProductXY
 import Plotink.Gen.position_scale
 import Plotink.Gen.points_near
+import Plotink.Gen.points_equal
 import Plotink.Gen.square_dist
 import Plotink.Gen.vInitial_VF_A_Dx
 import Plotink.Gen.vFinal_Vi_A_Dx
@@ -84,6 +85,62 @@ theorem X01_points_near_symm (amb : Nat) (ax ay bx by_ t : Rat) :
   apply propext
   have e : (ax - bx) * (ax - bx) + (ay - by_) * (ay - by_) = (bx - ax) * (bx - ax) + (by_ - ay) * (by_ - ay) := by ring
   rw [e]
+
+/-! ## `points_equal` — `math.isclose` on both coordinates (default `rel_tol = 1e-9`, `abs_tol = 0`) -/
+
+/-- the regenerated `points_equal` is `isclose` on each coordinate -/
+theorem X01_points_equal_def (R : Rounding) (amb : Nat) (ax ay bx by_ : Val) :
+    Gen.points_equal R amb (.tup [ax, ay]) (.tup [bx, by_]) = .bool_ (Py.isclose R ax bx && Py.isclose R ay by_) := by
+  unfold Gen.points_equal
+  simp [getItem_cons_zero, getItem_cons_succ, Py.truthy]
+
+/-- every point equals itself (whatever the rounding) -/
+theorem X01_points_equal_refl (R : Rounding) (amb : Nat) (x y : Rat) :
+    Gen.points_equal R amb (.tup [.flt x, .flt y]) (.tup [.flt x, .flt y]) = .bool_ true := by
+  rw [X01_points_equal_def]
+  simp [Py.isclose, Py.asF64]
+
+theorem X01_abs_ite (d : Rat) : (if d < 0 then -d else d) = |d| := by
+  split
+  · rename_i h; rw [abs_of_neg h]
+  · rename_i h; rw [abs_of_nonneg (not_lt.mp h)]
+
+/-- **what "equal" means**: two floats judged close by the regenerated test differ by at most `rel_tol` (the double
+nearest `1e-9`) times the larger magnitude, up to the two roundings of the test itself -/
+theorem X01_isclose_bound (R : Rounding) (hR : ContractBasic R) (x y : Rat)
+    (h : Py.isclose R (.flt x) (.flt y) = true) :
+    |y - x| * (1 - 1 / 2 ^ 53) ≤ Py.relTolLit * max |x| |y| * (1 + 1 / 2 ^ 53) := by
+  have ht : (0 : Rat) ≤ Py.relTolLit := by unfold Py.relTolLit; norm_num
+  have hmax : 0 ≤ max |x| |y| := le_max_of_le_left (abs_nonneg x)
+  have hrhs : 0 ≤ Py.relTolLit * max |x| |y| * (1 + 1 / 2 ^ 53) := by positivity
+  unfold Py.isclose at h
+  simp only [Py.asF64] at h
+  by_cases hxy : x = y
+  · subst hxy; simpa using hrhs
+  · simp only [hxy, ↓reduceIte, X01_abs_ite, Bool.or_eq_true, decide_eq_true_eq] at h
+    have hd := hR.f64_err (y - x)
+    have hd' : |y - x| * (1 - 1 / 2 ^ 53) ≤ |R.f64 (y - x)| := by
+      have := abs_sub_abs_le_abs_sub (y - x) (R.f64 (y - x))
+      have e : |y - x - R.f64 (y - x)| = |R.f64 (y - x) - (y - x)| := abs_sub_comm _ _
+      rw [e] at this
+      linarith
+    have side : ∀ z : Rat, |z| ≤ max |x| |y| → |R.f64 (Py.relTolLit * z)| ≤ Py.relTolLit * max |x| |y| * (1 + 1 / 2 ^ 53) := by
+      intro z hz
+      have e1 := hR.f64_err (Py.relTolLit * z)
+      have e2 : |R.f64 (Py.relTolLit * z)| ≤ |Py.relTolLit * z| + |R.f64 (Py.relTolLit * z) - Py.relTolLit * z| := by
+        have := abs_add_le (Py.relTolLit * z) (R.f64 (Py.relTolLit * z) - Py.relTolLit * z)
+        simpa using this
+      have e3 : |Py.relTolLit * z| = Py.relTolLit * |z| := by rw [abs_mul, abs_of_nonneg ht]
+      have e4 : Py.relTolLit * |z| ≤ Py.relTolLit * max |x| |y| := mul_le_mul_of_nonneg_left hz ht
+      have e5 : |Py.relTolLit * z| / 2 ^ 53 = |Py.relTolLit * z| * (1 / 2 ^ 53) := by ring
+      nlinarith [e1, e2, e3, e4, e5]
+    rcases h with (h | h) | h
+    · exact le_trans hd' (le_trans h (side y (le_max_right _ _)))
+    · exact le_trans hd' (le_trans h (side x (le_max_left _ _)))
+    · exact le_trans hd' (le_trans h hrhs)
+
+example : Py.isclose Rounding.exact (.flt 1) (.flt (1 + 1 / 10 ^ 10)) = true := by
+  simp [Py.isclose, Py.asF64, Rounding.exact, Py.relTolLit]; norm_num
 
 /-! ## `position_scale` — inches to the unit selected by `units_code` -/
 
